@@ -56,12 +56,13 @@ def check(F, rep):
     # next = max(micros, expected + 1)
     nl = op_base(new)
     mx = [(b, t) for b, t in du.origin_calls(nl) if call_matches(t, r"^core::cmp::(Ord::max|max)$")]
-    ok = False
+    # (the value may be computed at more than one site: once before the loop and again on retry)
     why = "no max() found"
-    if len(mx) == 1:
-        mb, mt = mx[0]
-        el = op_base(expected)
-        exp_src = copy_sources(now, el)
+    el = op_base(expected)
+    exp_src = copy_sources(now, el)
+    good = 0
+    for mb, mt in mx:
+        this = False
         for a in mt["args"]:
             l = op_base(a)
             if l is None:
@@ -72,15 +73,18 @@ def check(F, rep):
                 one = [z for z in (x, y) if z["k"] == "const" and str(z.get("v")).startswith("1_")]
                 var = [z for z in (x, y) if z["k"] != "const"]
                 if one and var and copy_sources(now, op_base(var[0])) == exp_src:
-                    ok = True
-                    why = "next = max(_, expected + 1)"
+                    this = True
+        good += this
+    ok = bool(mx) and good == len(mx)
+    if ok:
+        why = "next = max(_, expected + 1) at %d site(s)" % len(mx)
     rep.ob("strictly-greater", ok and {x[:1] + x[2:] for x in copy_sources(now, nl)} == {("call", ())} and all(re.match(r"^core::cmp::(Ord::max|max)$", x[1]) for x in copy_sources(now, nl)), site(now, rb), "the installed value exceeds the expected (= last observed) value: %s" % why, skey(F, now, "next-gt-expected"))
     # the new value is recomputed on every retry (not hoisted out of the loop)
-    if len(mx) == 1:
-        mb = mx[0][0]
+    if mx:
+        mbs = {b for b, t in mx}
         ftg = {tg for t in ts for _, tg in t.failure if now.blocks[tg]["t"]["k"] != "unreachable"}
-        stale = any(rb in now.reachable(tg, removed_blocks={mb}) for tg in ftg)
-        rep.ob("strictly-greater", bool(ftg) and not stale, site(now, mb), "after a failed compare-exchange the value to install is recomputed from the freshly observed value before the next attempt (a value computed once from a stale read could repeat or undercut a timestamp another thread already handed out)", skey(F, now, "recompute-on-retry"))
+        stale = any(rb in now.reachable(tg, removed_blocks=mbs) for tg in ftg)
+        rep.ob("strictly-greater", bool(ftg) and not stale, site(now, min(mbs)), "after a failed compare-exchange the value to install is recomputed from the freshly observed value before the next attempt (a value computed once from a stale read could repeat or undercut a timestamp another thread already handed out)", skey(F, now, "recompute-on-retry"))
     # retry: on Err the expected value is reloaded from the RMW's Err payload
     el = op_base(expected)
     srcs = copy_sources(now, el)
@@ -107,12 +111,16 @@ def _re_rmw(n):
 def fetch_update_idiom(F, rep, now, rmw):
     """`LAST.fetch_update(o, o, |last| Some(max(clock, last + 1)))` and the returned timestamp
     is the same function of the previous value fetch_update reports."""
-    rb, rt = rmw
+    from ..inline import inlined
+    now0 = now
+    now = inlined(F, now0)      # `max(clock, last + 1)` may live in a small private helper
+    rmw2 = find_calls(now, regex=RMW_OK)
+    rb, rt = rmw2[0] if len(rmw2) == 1 else rmw
     du = defuse(now)
     # the update closure
     l = op_base(rt["args"][3])
     m = re.search(r"closure@[^:]+:(\d+):", str(now.locals[l])) if l is not None else None
-    cl = [c for c in F.tree(now) if c is not now and c.kind == "Closure" and m and c.line == int(m.group(1))]
+    cl = [inlined(F, c) for c in F.tree(now0) if c is not now0 and c.kind == "Closure" and m and c.line == int(m.group(1))]
     okc, why = False, "update closure not found"
 
     def plus_one_of(g, o, is_base):
